@@ -387,7 +387,7 @@ pub fn run(ctx: &Ctx) -> Report {
     rep.assumptions.push("U7: a prefix expression in operand position and a non-atomic prefix operand are always parenthesised".into());
     rep.assumptions.push("U18: trees respect the parser's restrictions on callees, indexed expressions and assignment targets".into());
     let seed = ctx.seed;
-    let cases = ctx.pick(60_000u32, 2_000_000u32) / ctx.shards as u32;
+    let cases = ctx.pick(800_000u32, 20_000_000u32) / ctx.shards as u32;
     let shards = ctx.shards;
     let mut rep = par_shards(ctx.shards, rep, move |shard, r| {
         exhaustive(r, shard, shards, seed.wrapping_mul(31) + shard as u64);
